@@ -122,7 +122,9 @@ func newSandbox(files, dirs []string) (*sandbox, error) {
 		}
 		sb.content[fileBody(f)] = f
 	}
-	for name, body := range map[string]string{"secret.css": secretParent, "www-private/secret.css": secretSibling, "www-private/index.html": secretIndex} {
+	// (each secret also as the pre-compressed sidecar `<name>.gz` an asset pipeline may have left, same recognisable content)
+	for name, body := range map[string]string{"secret.css": secretParent, "www-private/secret.css": secretSibling, "www-private/index.html": secretIndex,
+		"secret.css.gz": secretParent, "www-private/secret.css.gz": secretSibling} {
 		if err := os.WriteFile(filepath.Join(base, name), []byte(body), 0o644); err != nil {
 			return fail(err)
 		}
